@@ -74,9 +74,17 @@ pub fn run_sched(program: &CaoCompiledProgram, sched: Option<Option<Vec<u64>>>, 
 fn sched_cases(rng: &mut Rng, w: &mut CaseWriter, pid: u64, name: &str, m: Module, thorough: bool) {
     let program = compile(m, CompileOptions::new()).expect("compile");
     let base = run_sched(&program, None, true);
-    assert!(base.audit.is_empty() && base.final_audit.is_ok(), "baseline run of {} fails its audit", name);
     let k = base.allocations;
     w.count(&format!("prog={}", name));
+    if !(base.audit.is_empty() && base.final_audit.is_ok()) {
+        // already the run without forced collections (the program's own gc_probe calls collect) fails its audit
+        let id = w.push(format!("SchedCase {} {} (Some []) true {} {}", out::n(pid), out::n(k), out::b(base.audit.is_empty()), out::b(base.final_audit.is_ok())), true);
+        let mut note = format!("program {} without forced collections: ", name);
+        for a in base.audit.iter().take(3) { note.push_str(a); note.push_str("; "); }
+        if let Err(e) = &base.final_audit { note.push_str(e); }
+        w.note(id, note);
+        return;
+    }
     for c in base.gc_cases.iter().take(2) { if c.len() < 60_000 { w.count("gc_case"); w.push(c.clone(), true); } }
     let mut scheds: Vec<(String, Option<Vec<u64>>)> = vec![("every".into(), None)];
     let singles: Vec<u64> = if thorough || k <= 16 { (0..k).collect() } else { (0..16).map(|_| rng.below(k)).collect() };
